@@ -26,7 +26,7 @@ Theorem C12_result_partitions_walk : forall ops c t name onecrl crlset r,
   let g := state_after empty_graph ops in
   verify g c t name onecrl crlset = Some r ->
   Permutation (r_current r ++ r_expiredc r ++ r_never r) (walk g c).
-Proof. exact (fun ops => result_partitions_walk _ (ginv_history ops)). Qed.
+Proof. exact (fun ops => result_partitions_walk _ (ginv_history ops) (rinv_history ops)). Qed.
 Print Assumptions C12_result_partitions_walk.
 
 (* current = every certificate of the chain is valid at t *)
@@ -34,7 +34,7 @@ Theorem C12_current_iff : forall ops c t name onecrl crlset r,
   let g := state_after empty_graph ops in
   verify g c t name onecrl crlset = Some r -> forall ch,
   (In ch (r_current r) <-> In ch (walk g c) /\ forall x, In x ch -> c_nb x < t < c_na x).
-Proof. exact (fun ops => current_iff _ (ginv_history ops)). Qed.
+Proof. exact (fun ops => current_iff _ (ginv_history ops) (rinv_history ops)). Qed.
 Print Assumptions C12_current_iff.
 
 (* expired = not current, but the validity periods of its certificates have a common instant *)
@@ -44,7 +44,7 @@ Theorem C12_expired_iff : forall ops c t name onecrl crlset r,
   (In ch (r_expiredc r) <->
    In ch (walk g c) /\ ~ (forall x, In x ch -> c_nb x < t < c_na x) /\
    (forall a b, In a ch -> In b ch -> c_nb a < c_na b)).
-Proof. exact (fun ops => expired_iff _ (ginv_history ops)). Qed.
+Proof. exact (fun ops => expired_iff _ (ginv_history ops) (rinv_history ops)). Qed.
 Print Assumptions C12_expired_iff.
 
 (* never valid = some NotAfter is not after some NotBefore *)
@@ -52,7 +52,7 @@ Theorem C12_never_iff : forall ops c t name onecrl crlset r,
   let g := state_after empty_graph ops in
   verify g c t name onecrl crlset = Some r -> forall ch,
   (In ch (r_never r) <-> In ch (walk g c) /\ ~ (forall a b, In a ch -> In b ch -> c_nb a < c_na b)).
-Proof. exact (fun ops => never_iff _ (ginv_history ops)). Qed.
+Proof. exact (fun ops => never_iff _ (ginv_history ops) (rinv_history ops)). Qed.
 Print Assumptions C12_never_iff.
 
 (* valid-at-expiration chains = the walked chains valid one second before the certificate's NotAfter *)
@@ -60,7 +60,7 @@ Theorem C12_valid_at_expiry_iff : forall ops c t name onecrl crlset r,
   let g := state_after empty_graph ops in
   verify g c t name onecrl crlset = Some r -> forall ch,
   (In ch (r_vae r) <-> In ch (walk g c) /\ forall x, In x ch -> c_nb x < c_na c - 1 < c_na x).
-Proof. exact (fun ops => valid_at_expiry_iff _ (ginv_history ops)). Qed.
+Proof. exact (fun ops => valid_at_expiry_iff _ (ginv_history ops) (rinv_history ops)). Qed.
 Print Assumptions C12_valid_at_expiry_iff.
 
 (* ... which are the current chains of a verification at NotAfter - 1 s *)
@@ -69,7 +69,7 @@ Theorem C12_valid_at_expiry_is_current_at_expiry : forall ops c t name onecrl cr
   verify g c t name onecrl crlset = Some r -> forall r',
   verify g c (c_na c - 1) name onecrl crlset = Some r' ->
   Permutation (r_vae r) (r_current r').
-Proof. exact (fun ops => valid_at_expiry_is_current_at_expiry _ (ginv_history ops)). Qed.
+Proof. exact (fun ops => valid_at_expiry_is_current_at_expiry _ (ginv_history ops) (rinv_history ops)). Qed.
 Print Assumptions C12_valid_at_expiry_is_current_at_expiry.
 
 Theorem C12_expired_flag : forall g c t name onecrl crlset r,
@@ -95,7 +95,7 @@ Theorem C12_parents_share_subject_and_key : forall ops c t name onecrl crlset r,
   let g := state_after empty_graph ops in
   verify g c t name onecrl crlset = Some r -> forall p,
   In p (r_parents r) -> e_iss (start_edge g c) = Some (node_of p).
-Proof. exact (fun ops => parents_same_node _ (ginv_history ops)). Qed.
+Proof. exact (fun ops => parents_same_node _ (ginv_history ops) (rinv_history ops)). Qed.
 Print Assumptions C12_parents_share_subject_and_key.
 
 (* root if in the root store; else intermediate if CA with a parent; else leaf if it has a parent; else unknown *)
@@ -127,5 +127,5 @@ Theorem C12_expired_no_current : forall ops c t name onecrl crlset r,
   let g := state_after empty_graph ops in
   verify g c t name onecrl crlset = Some r ->
   e_cert (start_edge g c) = c -> r_expired r = true -> r_current r = [].
-Proof. exact (fun ops => expired_no_current _ (ginv_history ops)). Qed.
+Proof. exact (fun ops => expired_no_current _ (ginv_history ops) (rinv_history ops)). Qed.
 Print Assumptions C12_expired_no_current.
